@@ -6,15 +6,20 @@ PD = "Source/Lib/Encoder/Codec/EbPictureDecisionProcess.c"
 EC = "Source/Lib/Encoder/Codec/EbEntropyCoding.c"
 def gen(wd):
     open(os.path.join(wd, "c20_signals.inc"), "w").write(slicer.functions(RC, ["signal_derivation_pre_analysis_oq_scs"]) + slicer.functions(PD, ["signal_derivation_multi_processes_oq"]))
+def gen_tiles(wd):
+    open(os.path.join(wd, "c20_tiles.inc"), "w").write(slicer.functions(EC, ["svt_av1_get_tile_limits", "svt_av1_calculate_tile_cols", "svt_av1_calculate_tile_rows", "set_tile_info"]))
 META = {
     "level_text": "The real signal-derivation functions that turn the configuration's tool switches into sequence-header and frame-level control fields, executed for EVERY combination of the switches (in their accepted ranges) and every picture state (preset 0..8, slice type, temporal layer, screen-content flag, resolution class): each tool the configuration turns off (loop filter, CDEF, loop restoration incl. self-guided/Wiener, palette, intra block copy, warped motion, intra edge filter) is off in the field the bitstream writer and mode decision read.",
-    "level_note": "Gate-level only: that mode decision never *chooses* a disabled tool per block (OBMC, filter-intra, CfL, inter-intra, global motion, superres) and that the header writer copies these fields faithfully are not decided here; the requested tile layout is decided in C12 (accepted layouts) but not its signalling.",
+    "level_note": "Gate-level only: that mode decision never *chooses* a disabled tool per block (OBMC, filter-intra, CfL, inter-intra, global motion, superres) and that the header writer copies these fields faithfully are not decided here; the per-picture tile layout computed by set_tile_info is decided (query tile_layout_as_requested); that write_tile_info_max_tile serialises it faithfully is not.",
     "technique": "CBMC on verbatim function slices, all switch values and picture states symbolic",
     "assumptions": ["switch values within the ranges verify_settings accepts"],
-    "outside": ["block-level tool use", "tile-info signalling", "superres"],
+    "outside": ["block-level tool use", "serialisation of the tile info", "superres"],
     "stubs": [], "explanation": ""}
 def queries(tier):
     return [Query(name="disabled_tools_off", harness="C20/tools.c", gen=gen, unwind=8, funcs=[RC + ":signal_derivation_pre_analysis_oq_scs", PD + ":signal_derivation_multi_processes_oq"], timeout=900,
                   bound="all tool-switch values x presets 0..8 x slice types x temporal layers 0..5 x screen-content flag", what="configured-off tools are off in the derived control fields"),
             Query(name="sequence_level_switches", harness="C20/tools.c", gen=gen, unwind=8, defines=["SEQ_ONLY=1"], funcs=[RC + ":signal_derivation_pre_analysis_oq_scs"], timeout=900,
-                  bound="all sequence-level switch values x presets", what="sequence-header tool flags are single bits that honour explicit on/off settings")]
+                  bound="all sequence-level switch values x presets", what="sequence-header tool flags are single bits that honour explicit on/off settings"),
+            Query(name="tile_layout_as_requested", harness="C20/tiles.c", gen=gen_tiles, unwind=70, timeout=900,
+                  funcs=[EC + ":set_tile_info", EC + ":svt_av1_get_tile_limits", EC + ":svt_av1_calculate_tile_cols", EC + ":svt_av1_calculate_tile_rows", "Source/Lib/Common/Codec/EbBlockStructures.h:tile_log2"],
+                  bound="every frame size 64..4096 x 64..2160, superblock 64/128, tile_rows 0..6, tile_columns 0..4", what="signalled tile layout = requested layout limited only by the frame size; tile boundaries cover the frame")]
